@@ -4,6 +4,8 @@ import M3d.Model.SmartSqueeze
 import M3d.Model.Transform2
 import M3d.Model.TransformNest
 import M3d.Model.TransformHist
+import M3d.Model.TransformScene
+import M3d.Model.TransformScene2
 /-!
 Line-protocol handler for C05.  Core-only; runs the models of `M3d/Model/Transform.lean` at `Rat`.
 
@@ -408,6 +410,94 @@ def handleHist (dim : Nat) (ws : List String) : Option String := do
   histSteps dim n { objs := [t], snaps := [] } ws []
 
 
+/-! ### scene graphs (`scene3` / `scene2`): `M3d/Model/TransformScene.lean`
+
+`c05 sceneN <mode> <scene> args…` with `<scene>` = `L id lo hi a b k (scale normal)ᵏ` (the harness' probe collider,
+`probeCollider`) | `G n <scene>ⁿ` (a user-defined multi-member collider) | `C n <scene>ⁿ` (the real `NewJoinedCollider`; all
+probes have bounds that contain every ray origin, so its bounds gate lets every query through) | `X <transform> <scene>`
+(`TransformCollider`).  The answers are those of the collider VALUE (`groupCollider` / `transformCollider`), which
+`M3d.C05.transform_group_distrib` + `nested_collider` reduce to the single-wrapper laws leaf by leaf; the ray modes also run
+the pointer semantics `Scene.run` (with the shadow-ray callback in mode `re`) and refuse (`MODEL-NE-SPEC`) unless it reports
+the same collisions (`M3d.C05.scene_pointer_semantics`, `scene_shadow_rays`). -/
+
+def mkPairs : List (Scene Q) → Option (Scene Q)
+  | [] => none
+  | [s] => some s
+  | s :: rest => (mkPairs rest).map (Scene.pair s)
+
+mutual
+partial def pScene (dim : Nat) : P (Collider Q × Scene Q)
+  | "L" :: ws => do
+      let (id, ws) ← pNat ws
+      let (lo, ws) ← pV dim 0 ws; let (hi, ws) ← pV dim 0 ws
+      let (a, ws) ← pV dim 0 ws; let (b, ws) ← pV dim 0 ws
+      let (k, ws) ← pNat ws
+      let (hs, ws) ← pHits dim k ws
+      let c := probeCollider lo hi a b (hs.map fun h => { h with extra := id })
+      some ((c, .leaf c), ws)
+  | "X" :: ws => do
+      let (t, ws) ← pXf dim ws
+      let ((c, s), ws) ← pScene dim ws
+      some ((transformCollider sqrtQ t c, .xform t s), ws)
+  | g :: ws => do
+      if g != "G" && g != "C" then none
+      let (n, ws) ← pNat ws
+      let (kids, ws) ← pScenes dim n ws
+      match kids with
+      | [] => none
+      | (c0, _) :: rest =>
+          let sc ← mkPairs (kids.map (·.2))
+          some ((groupCollider c0 (rest.map (·.1)), sc), ws)
+  | [] => none
+partial def pScenes (dim : Nat) : Nat → P (List (Collider Q × Scene Q))
+  | 0, ws => some ([], ws)
+  | n + 1, ws => do
+      let (x, ws) ← pScene dim ws
+      let (r, ws) ← pScenes dim n ws
+      some (x :: r, ws)
+end
+
+def sHitX (dim : Nat) (h : Hit Q) : String := sHit dim h ++ " " ++ toString h.extra
+
+def sHitsX (dim : Nat) (n : Nat) (hs : List (Hit Q)) : String :=
+  if hs.isEmpty then toString n else toString n ++ " " ++ "|".intercalate (hs.map (sHitX dim))
+
+def pRay (dim : Nat) : P (Ray Q) := fun ws => do
+  let (o, ws) ← pV dim 0 ws; let (d, ws) ← pV dim 0 ws
+  some (⟨o, d⟩, ws)
+
+def handleScene (dim : Nat) (ws : List String) : Option String := do
+  let (mode, ws) ← (match ws with | m :: ws => some (m, ws) | [] => none)
+  let ((col, sc), ws) ← pScene dim ws
+  match mode with
+  | "cb" =>
+      let r ← done (← pRay dim ws)
+      let ok := decide ((sc.run sqrtQ (fun s => s) 0 [r]).2 = col.hits r)
+      some (sHitsX dim (col.count r) (col.hits r) ++ (if ok then "" else " MODEL-NE-SPEC"))
+  | "nil" =>
+      let r ← done (← pRay dim ws)
+      some (toString (col.count r))
+  | "first" =>
+      let r ← done (← pRay dim ws)
+      let f := col.first r
+      some (if f.2 then "hit " ++ sHitX dim f.1 else "miss")
+  | "re" =>
+      let (r, ws) ← pRay dim ws
+      let sec ← done (← pRay dim ws)
+      let ok := decide ((sc.run sqrtQ (shadowCallback sqrtQ sc sec) 0 [r]).2 = col.hits r)
+      let secStr := sHitsX dim (col.count sec) (col.hits sec)
+      some (" ; ".intercalate (sHitsX dim (col.count r) (col.hits r) :: (col.hits r).map (fun _ => secStr))
+        ++ (if ok then "" else " MODEL-NE-SPEC"))
+  | "sph" =>
+      let (p, ws) ← pV dim 0 ws
+      let rad ← done (← pRat ws)
+      some (boolStr (col.sphere p rad))
+  | "bounds" =>
+      let _ ← done ((), ws)
+      some (sB dim (col.lo, col.hi))
+  | _ => none
+
+
 /-! ### the 2-D kinds: the same handlers over the native 2-D model (`M3d/Model/Transform2.lean`) -/
 namespace Two
 
@@ -740,6 +830,85 @@ def handleHist (dim : Nat) (ws : List String) : Option String := do
   histSteps dim n { objs := [t], snaps := [] } ws []
 
 
+/-! ### scene graphs, 2-D (same text as the 3-D handler) -/
+
+def mkPairs : List (Scene2 Q) → Option (Scene2 Q)
+  | [] => none
+  | [s] => some s
+  | s :: rest => (mkPairs rest).map (Scene2.pair s)
+
+mutual
+partial def pScene (dim : Nat) : P (Collider2 Q × Scene2 Q)
+  | "L" :: ws => do
+      let (id, ws) ← pNat ws
+      let (lo, ws) ← pV dim 0 ws; let (hi, ws) ← pV dim 0 ws
+      let (a, ws) ← pV dim 0 ws; let (b, ws) ← pV dim 0 ws
+      let (k, ws) ← pNat ws
+      let (hs, ws) ← pHits dim k ws
+      let c := probeCollider2 lo hi a b (hs.map fun h => { h with extra := id })
+      some ((c, .leaf c), ws)
+  | "X" :: ws => do
+      let (t, ws) ← pXf dim ws
+      let ((c, s), ws) ← pScene dim ws
+      some ((transformCollider2 sqrtQ t c, .xform t s), ws)
+  | g :: ws => do
+      if g != "G" && g != "C" then none
+      let (n, ws) ← pNat ws
+      let (kids, ws) ← pScenes dim n ws
+      match kids with
+      | [] => none
+      | (c0, _) :: rest =>
+          let sc ← mkPairs (kids.map (·.2))
+          some ((groupCollider2 c0 (rest.map (·.1)), sc), ws)
+  | [] => none
+partial def pScenes (dim : Nat) : Nat → P (List (Collider2 Q × Scene2 Q))
+  | 0, ws => some ([], ws)
+  | n + 1, ws => do
+      let (x, ws) ← pScene dim ws
+      let (r, ws) ← pScenes dim n ws
+      some (x :: r, ws)
+end
+
+def sHitX (dim : Nat) (h : Hit2 Q) : String := sHit dim h ++ " " ++ toString h.extra
+
+def sHitsX (dim : Nat) (n : Nat) (hs : List (Hit2 Q)) : String :=
+  if hs.isEmpty then toString n else toString n ++ " " ++ "|".intercalate (hs.map (sHitX dim))
+
+def pRay (dim : Nat) : P (Ray2 Q) := fun ws => do
+  let (o, ws) ← pV dim 0 ws; let (d, ws) ← pV dim 0 ws
+  some (⟨o, d⟩, ws)
+
+def handleScene (dim : Nat) (ws : List String) : Option String := do
+  let (mode, ws) ← (match ws with | m :: ws => some (m, ws) | [] => none)
+  let ((col, sc), ws) ← pScene dim ws
+  match mode with
+  | "cb" =>
+      let r ← done (← pRay dim ws)
+      let ok := decide ((sc.run sqrtQ (fun s => s) 0 [r]).2 = col.hits r)
+      some (sHitsX dim (col.count r) (col.hits r) ++ (if ok then "" else " MODEL-NE-SPEC"))
+  | "nil" =>
+      let r ← done (← pRay dim ws)
+      some (toString (col.count r))
+  | "first" =>
+      let r ← done (← pRay dim ws)
+      let f := col.first r
+      some (if f.2 then "hit " ++ sHitX dim f.1 else "miss")
+  | "re" =>
+      let (r, ws) ← pRay dim ws
+      let sec ← done (← pRay dim ws)
+      let ok := decide ((sc.run sqrtQ (shadowCallback2 sqrtQ sc sec) 0 [r]).2 = col.hits r)
+      let secStr := sHitsX dim (col.count sec) (col.hits sec)
+      some (" ; ".intercalate (sHitsX dim (col.count r) (col.hits r) :: (col.hits r).map (fun _ => secStr))
+        ++ (if ok then "" else " MODEL-NE-SPEC"))
+  | "sph" =>
+      let (p, ws) ← pV dim 0 ws
+      let rad ← done (← pRat ws)
+      some (boolStr (col.circle p rad))
+  | "bounds" =>
+      let _ ← done ((), ws)
+      some (sB dim (col.lo, col.hi))
+  | _ => none
+
 end Two
 
 /-! ### matrices -/
@@ -1056,6 +1225,8 @@ def handleAll (ws : List String) : Option String :=
   | "meshxf3" :: rest => handleMeshXf rest
   | "hist3" :: rest => handleHist 3 rest
   | "hist2" :: rest => Two.handleHist 2 rest
+  | "scene3" :: rest => handleScene 3 rest
+  | "scene2" :: rest => Two.handleScene 2 rest
   | k :: rest => do
       if k.startsWith "bits." then
         let b := (k.drop 5).toString
